@@ -67,14 +67,14 @@ theorem C07_basic_agrees (id : Nat) (data : Bytes) (hd : 1 ≤ data.length) (h22
     (by have := r.1; simp only [frameOfId]; omega) (by have := r.2.1; simp only [frameOfId]; omega)
     (by have := r.2.2.1; simp only [frameOfId]; omega) hlen hd hb ts hts hc
 
-theorem C07_actisense_agrees (id : Nat) (data : Bytes) (hd : 1 ≤ data.length) (hb : ∀ b ∈ data, b < 256) :
+theorem C07_actisense_agrees (id : Nat) (data : Bytes) (hb : ∀ b ∈ data, b < 256) :
     let f := frameOfId id data
     decodeActisense ("A000001.000 ".toList ++ encodeActisense f.prio f.dst f.src f.pgn data) = .ok f := by
   intro f
   have r := N2k.C05_parse_ranges id
   exact C06_actisense_rt f.prio f.dst f.src f.pgn data (by have := r.2.2.2; simp only [f, frameOfId]; omega)
     (by have := r.2.2.1; simp only [f, frameOfId]; omega) (by have := r.2.1; simp only [f, frameOfId]; omega)
-    (by have := r.1; simp only [f, frameOfId]; omega) hd hb
+    (by have := r.1; simp only [f, frameOfId]; omega) hb
 
 -- non-vacuity
 example : decodeBasic (renderBasic "2024-01-01-00:00:00.000".toList (frameOfId 0x19F80123 [1, 0xAB]))
